@@ -42,7 +42,7 @@ func init() {
 	}
 	harness.Specs["C09"] = &harness.PropSpec{
 		ID: "C09", Test: "TestC09", Kind: "file", Level: "exploration", Race: true,
-		Quick: 640, Thorough: 40000,
+		Quick: 640, Thorough: 4000,
 		Rule: "three generated case families, all under the Go race detector: (a) sequential file programs covering every way a transaction or open-time " +
 			"maintenance step can end (commit, commit failing for space, commit failing by an injected I/O fault, rollback, close, double close, max-size update on " +
 			"open): lock state (hook) must be idle whenever no transaction is open and Begin/BeginReadonly/File.Close must return at the end; (b) concurrent stress: " +
